@@ -33,7 +33,7 @@ func genNewickName(t *rapid.T) gen.B {
 		return gen.B(rapid.SliceOfN(rapid.Byte(), 0, 5).Draw(t, "raw"))
 	case 3:
 		if rapid.IntRange(0, 9).Draw(t, "long") == 0 {
-			return gen.Alphabet{Hostile: []byte(" _'(),:;\t\n"), Exclude: nil}.Field(6, 100, 3000).Draw(t, "longname")
+			return gen.Alphabet{Hostile: []byte(" _'(),:;\t\n"), Exclude: nil}.Field(6, 100, 9000).Draw(t, "longname")
 		}
 	}
 	n := rapid.IntRange(0, 6).Draw(t, "nsym")
@@ -195,6 +195,7 @@ func checkC05(c C05Case, o *Obs) error {
 		}
 	}
 	var file bytes.Buffer
+	var keeper marshalKeeper
 	roots := make([]*newick.Node, len(c.Trees))
 	o.NT = len(c.Trees) >= 2
 	for i, ts := range c.Trees {
@@ -250,6 +251,11 @@ func checkC05(c C05Case, o *Obs) error {
 		}
 		file.Write(text)
 		file.WriteString(c.Sep)
+		keeper.keep(fmt.Sprintf("tree %d", i), text)
+	}
+	(&newick.Node{Name: "another tree", Children: []*newick.Node{{Name: "x", Distance: 2.5}, {Name: "y"}}}).MarshalText()
+	if err := keeper.verify(); err != nil {
+		return err
 	}
 	o.ClassIf(len(c.Trees) >= 2 && c.Sep == "", "multi-tree no separator")
 	o.ClassIf(len(c.Trees) >= 2, "multi-tree")
@@ -322,6 +328,15 @@ func exhaustiveC05(thorough bool, emit func(C05Case) bool) {
 	// every single byte as a name
 	for b := 0; b < 256; b++ {
 		if !emit(C05Case{Trees: []gen.TreeSpec{{Parents: []int{0, 0}, Names: []gen.B{{byte(b)}, {'k', byte(b)}, {byte(b), 'k'}}}}}) {
+			return
+		}
+	}
+	// very long names, quoted and unquoted (beyond bufio's 4096-byte buffer and beyond 64 KiB)
+	for _, n := range []int{4090, 4095, 4096, 4097, 4100, 8192, 70000} {
+		plainName := gen.B(bytes.Repeat([]byte("x"), n))
+		quotedName := gen.B(bytes.Repeat([]byte("y z"), n/3+1)[:n])
+		mixed := append(gen.B("(a'b):"), bytes.Repeat([]byte("q"), n)...)
+		if !emit(C05Case{Trees: []gen.TreeSpec{{Parents: []int{0, 0}, Names: []gen.B{plainName, quotedName, mixed}, Dists: []gen.F{1}}, {Names: []gen.B{gen.B("after")}}}, Sep: "\n"}) {
 			return
 		}
 	}
